@@ -1,6 +1,6 @@
 """C19 - CategoriesToIntegers encodes each category by its own indicator and nothing else."""
 from vf import loader
-from vf.core import Clause, Outcome, Violation, require
+from vf.core import Clause, Outcome, Violation, require, np_scalars, with_np
 
 import numpy as np
 import pandas
@@ -13,7 +13,7 @@ RULE = ("Hypothesis draws a training frame and a test frame together: 1-3 catego
         "cell, options columns/single/skip_errors/remove. Oracle: reference encoder written from the statement (cell==1 iff the "
         "row's value is that category; fillers NaN or 0 both accepted), must-raise for unseen without skip_errors, and the "
         "metamorphic 'an unseen value behaves exactly like a missing one' relation for skip_errors=True. Non-trivial: the test frame "
-        "holds an unseen or missing value, or >= 2 categorical columns. Distinct = distinct case JSON.")
+        "holds an unseen or missing value, or >= 2 categorical columns. One case in three passes its scalar hyper-parameters as NumPy scalars (numpy.bool_, numpy.int64, numpy.float64). Distinct = distinct case JSON.")
 ASSUMPTIONS = ["categorical columns hold strings (categories are sorted by the transformer)",
                "filler for 'no indicator' may be NaN or 0: the statement does not fix it",
                "a value listed in remove= and met with skip_errors=False may either raise or give no indicator (not specified)",
@@ -152,7 +152,7 @@ def check(case):
         columns = list(fit_cols)
     facts = dict(single=o["single"], skip_errors=o["skip_errors"], columns=o["columns"] == "auto" and "auto" or ("string" if isinstance(o["columns"], str) else "explicit"),
                  remove=bool(o["remove"]), dtype=case["dtype"])
-    tr = _mod.CategoriesToIntegers(columns=columns, remove=o["remove"], skip_errors=o["skip_errors"], single=o["single"])
+    tr = _mod.CategoriesToIntegers(columns=columns, remove=o["remove"], **np_scalars(dict(skip_errors=o["skip_errors"], single=o["single"]), case.get("np_params", False)))
     train = _frame(case["train"], cols, case["train_index"], cat_cols, case["dtype"])
     r = tr.fit(train)
     require(r is tr, "fit:not-self", "", facts)
@@ -236,6 +236,6 @@ def _cases(draw, tier="quick"):
 
 
 CLAUSES = [
-    Clause("encode", check, strategy=lambda tier: _cases(tier), quick=2400, thorough=40000, quick_shards=12,
+    Clause("encode", check, strategy=lambda tier: with_np(_cases(tier)), quick=2400, thorough=40000, quick_shards=12,
            doc="fit on a frame, transform it and a second frame with missing/unseen values; reference encoder + metamorphic relation"),
 ]
